@@ -4,7 +4,7 @@ workloads + (where a model prediction exists) kernel-evaluated comparison with t
 import collections, json, os, re
 from . import common as C
 
-FAMILIES = {"C14": ["hub", "errors"], "C01": ["conc", "closures", "framing"], "C02": ["nest", "closures"], "C09": ["values", "conc"], "C10": ["errors"], "C11": ["closures", "hub", "framing"],
+FAMILIES = {"C14": ["hub", "errors"], "C01": ["conc", "closures", "framing"], "C02": ["nest", "closures", "framing"], "C09": ["values", "conc", "closures"], "C10": ["errors", "hub"], "C11": ["closures", "hub", "framing"],
             "C13": ["hub", "relay", "nestedlink"], "C17": ["wire"]}
 
 
@@ -62,6 +62,10 @@ def mon_c01(rec):
             if c["err"] != "context canceled" or c["ret"] != "0" or len(got) > 1:
                 out.append("call tag %d made with an already cancelled context returned (%s, %r) and caused %d invocations, expected (0, 'context canceled') and at most one" % (c["tag"], c["ret"], c["err"], len(got)))
             continue
+        if c["m"] == "NamedLikeInternal":
+            if c["ret"] != c["arg"]:
+                out.append("the peer exposes a function at path %r (a name panrpc also uses internally): calling it ran %s on the peer, expected exactly one invocation of the peer's own function of that name" % (c["arg"], c["ret"] or "nothing"))
+            continue
         if c["m"] == "CallWithHandlerContextAfterReturn":
             if (c["ret"], c["err"]) != ("7", "") or len(got) != 1:
                 out.append("a call made with a handler's context after that handler had returned (on a healthy link) returned (%s, %r) and caused %d invocation(s), expected (7, '') and exactly one: every call gets its own handler's result" % (c["ret"], c["err"], len(got)))
@@ -83,6 +87,11 @@ def mon_c01(rec):
             v, msg = json.loads(c["arg"])
             if c["ret"] != str(v) or c["err"] != msg:
                 out.append("call tag %d (FailVal %s) returned (%s, %r): not its own handler's result" % (c["tag"], c["arg"], c["ret"], c["err"]))
+        elif c["m"] == "EchoLease":
+            if g["data"] != c["arg"]:
+                out.append("call tag %d: the handler ran with the argument %s, the caller passed %s (a value whose type implements context.Context is an argument like any other)" % (c["tag"], g["data"], c["arg"]))
+            if c["ret"] != c["arg"] or c["err"] != "":
+                out.append("call tag %d (EchoLease %s) returned (%s, %r): not its own handler's result" % (c["tag"], c["arg"], c["ret"], c["err"]))
         elif c["m"] == "EchoPtr":
             if g["data"] != c["arg"]:
                 out.append("call tag %d: the handler ran with the pointer argument %s, the caller passed %s: the invocation is not with this call's arguments" % (c["tag"], g["data"], c["arg"]))
@@ -452,7 +461,7 @@ def mon_c17(rec):
     for d in reqs.values():
         byfn[d["function"]].append(d)
     arity = {"Delayed": 2, "Zero": 0, "EchoInt": 2, "Fail": 2, "FailVal": 3, "Multi": 8, "Iter": 3, "Sub.Deep.Ping": 1, "EchoPtr": 2, "CallClosure": 2,
-             "EchoStr": 2, "EchoStruct": 2, "Call0": 2, "Notify0": 1, "Keep": 2, "FailOwn": 2}
+             "EchoStr": 2, "EchoStruct": 2, "Call0": 2, "Notify0": 1, "Keep": 2, "FailOwn": 2, "Two": 3}
     for fn, ds in byfn.items():
         if fn not in arity:
             out.append("request names function %r which no call used" % fn)
@@ -463,6 +472,17 @@ def mon_c17(rec):
     for d in byfn.get("CallClosure", []):
         if isinstance(d["args"], list) and len(d["args"]) == 2 and not isinstance(d["args"][1], list):
             out.append("closure invocation request carries the closure's arguments as %r: one array element per argument - an empty array, never null, for a closure that takes only a context" % (d["args"][1],))
+    for d in byfn.get("EchoInt", []):
+        a = d["args"]
+        if isinstance(a, list) and len(a) == 2:
+            t, x = [(v.get("$decoded") if isinstance(v, dict) else v) for v in a]
+            if isinstance(t, int) and 82000 <= t < 83000 and x != t - 82000 + 7000:
+                out.append("request frame of the call EchoInt(tag %d, %d) carries the arguments (%r, %r): with many overlapping calls of one function every frame carries its own call's arguments" % (t, t - 82000 + 7000, t, x))
+    for c in rec["calls"] or []:
+        if c["m"] == "Two" and (c["err"] != "" or c["ret"] != '"10/,20/;11/,21/;12/,22/"'):
+            out.append("two callables passed in one call: the callee's invocations of (f, g) returned %s (error %r), expected \"10/,20/;11/,21/;12/,22/\": every invocation frame names the callable that was invoked" % (c["ret"], c["err"]))
+        if c["m"] == "EchoInt" and c.get("arg") and 82000 <= c["tag"] < 83000 and (c["err"] != "" or c["ret"] != c["arg"]):
+            out.append("one of many overlapping calls of one function, EchoInt(tag %d, %s), returned (%s, %r)" % (c["tag"], c["arg"], c["ret"], c["err"]))
     for c in rec["calls"] or []:
         if c["m"] not in byfn:
             out.append("call of %s produced no request frame with that dotted name" % c["m"])
@@ -554,6 +574,9 @@ def mon_relay(rec):
     for c in rec["calls"] or []:
         if c["m"] == "ProbeOtherLink" and (c["err"] != "" or c["ret"] != "42"):
             out.append("after link 0 ended (and a call relayed over link 1 with a context of link 0 was aborted), a new call on link 1 from %s returned (%s, %r)" % (c["from"], c["ret"], c["err"]))
+        elif c["m"] == "CallOnOtherLinkWithDeadContext":
+            if c["err"] != "context canceled" or c["ret"] != "0":
+                out.append("a call made over link 1 with an already cancelled context (the context of a request of the ended link 0) returned (%s, %r), expected (0, 'context canceled')" % (c["ret"], c["err"]))
         elif c["m"] == "RelayedOverFailedLink":
             if c["err"] != "closed" or not c.get("done"):
                 out.append("a handler serving link 1 relayed the call over link 0, which failed: its caller on link 1 got (%s, %r), expected the handler's own result (0, 'closed') as an ordinary application-level error" % (c["ret"], c["err"]))
@@ -775,7 +798,7 @@ def check(res, tier, seed):
                           dict(kind="sys", output=out[-3000:], last=recs[-1] if recs else None))
         mon = MONITORS[pid]
         for r in recs:
-            vs = (mon_c11 if (pid == "C01" and r["family"] == "closures") else mon_c01 if (pid == "C09" and r["family"] == "conc") else mon_framing if r["family"] == "framing" else (lambda rr: [v for v in mon_c13(rr) if "closure" in v]) if (pid == "C11" and r["family"] == "hub") else mon_relay if r["family"] == "relay" else mon_nestedlink if r["family"] == "nestedlink" else mon)(r)
+            vs = (mon_c11 if (pid == "C01" and r["family"] == "closures") else mon_c01 if (pid == "C09" and r["family"] == "conc") else (lambda rr: [v for v in mon_c11(rr) if "between plain" in v or "Mixed" in v]) if (pid == "C09" and r["family"] == "closures") else mon_framing if r["family"] == "framing" else (lambda rr: [v for v in mon_c13(rr) if "closure" in v]) if (pid in ("C11", "C10") and r["family"] == "hub") else mon_relay if r["family"] == "relay" else mon_nestedlink if r["family"] == "nestedlink" else mon)(r)
             if vs:
                 hits += 1
                 res.violation("sys-monitor:" + re.sub(r"\d+", "N", vs[0])[:50], "implementation violates %s: %s" % (pid, vs[0]),
